@@ -114,6 +114,7 @@ struct lpmon {
 	int commit_off; /* stop comparing (mismatch already reported or beyond the reference horizon) */
 	uint64_t sig;
 	int init_done, fini_done;
+	unsigned undone;
 };
 static struct lpmon lpm[VH_MAXLP];
 
@@ -316,7 +317,14 @@ void rs_verif_hook(unsigned point, const void *p, uint64_t a, uint64_t b)
 				atomic_store_explicit(slot, v, memory_order_relaxed);
 				PROGRESS();
 			}
-			failpoint(vh_cfg.fp_level >= 3 ? 8 : vh_cfg.fp_level == 2 ? 40 : 0, 3);
+			if(a == 2 && vh_cfg.fp_level >= 2 && fp_next(t) % (vh_cfg.fp_level >= 3 ? 40 : 200) == 0) {
+				/* a thread descheduled while it waits for the others to take their first snapshot: messages sent to it meanwhile by threads that
+				 * have not joined the reduction yet are covered by nobody's snapshot and are extracted only after it moved to the next phase */
+				t->c[VC_FP_DELAYS]++;
+				usleep(150 + (unsigned)(fp_next(t) % 700));
+			} else {
+				failpoint(vh_cfg.fp_level >= 3 ? 8 : vh_cfg.fp_level == 2 ? 40 : 0, 3);
+			}
 			return;
 		}
 		case VH_GVT_INITIATE:
@@ -343,6 +351,12 @@ void rs_verif_hook(unsigned point, const void *p, uint64_t a, uint64_t b)
 			CNT(VC_VOTES);
 			memcpy(&t->vote_gvt, &a, 8);
 			PROGRESS();
+			/* A vote is irrevocable. For monotone predicates (the only ones the model family has) an LP whose CURRENT state does not satisfy
+			 * its predicate has never satisfied it on a state that is still valid: voting now means ending on a rolled-back state. */
+			if(vh_cfg.monitors && vh_cfg.monotone_predicates && !global_config.serial && t->vote_gvt < global_config.termination_time)
+				for(uint64_t i = lid_thread_first; i < lid_thread_end; ++i)
+					if(!global_config.committed(i, lps[i].state_pointer))
+						vh_violation("C07", "voted-with-predicate-false", "thread %u voted for termination at GVT %a while LP %llu does not satisfy its predicate on its current state", rid, t->vote_gvt, (unsigned long long)i);
 			return;
 		}
 		/* ---------- queue ---------- */
@@ -446,7 +460,16 @@ void rs_verif_hook(unsigned point, const void *p, uint64_t a, uint64_t b)
 				CNT(VC_EXTRACT_CANCELLED_UNPROCESSED);
 			else if(prev == (MSG_FLAG_ANTI | MSG_FLAG_PROCESSED))
 				CNT(VC_EXTRACT_CANCELLED_REQUEUED);
-			failpoint(vh_cfg.fp_level >= 3 ? 50 : vh_cfg.fp_level == 2 ? 400 : 0, 3);
+			if(prev & MSG_FLAG_ANTI) {
+				/* an extracted anti-message is about to cause a rollback that emits further anti-messages: a stall right here lets the other
+				 * threads run ahead through the GVT phases while this cascade is neither in a queue nor yet re-emitted */
+				if(vh_cfg.fp_level >= 2 && fp_next(t) % (vh_cfg.fp_level >= 3 ? 3 : 12) == 0) {
+					t->c[VC_FP_DELAYS]++;
+					usleep(100 + (unsigned)(fp_next(t) % 1500));
+				}
+			} else {
+				failpoint(vh_cfg.fp_level >= 3 ? 50 : vh_cfg.fp_level == 2 ? 400 : 0, 3);
+			}
 			return;
 		}
 		/* ---------- forward execution ---------- */
@@ -589,6 +612,7 @@ void rs_verif_hook(unsigned point, const void *p, uint64_t a, uint64_t b)
 			struct lpmon *lm = LM(current_lp);
 			CNT(VC_UNDONE);
 			t->cur.undone++;
+			lm->undone++;
 			/* legal previous values: PROCESSED, PROCESSED|ANTI, and ANTI+2*PROCESSED (=5, the anti-message of a processed event is being
 			 * handled: PROCESSED was added a second time on re-extraction); remote copies carry id bits >= 4 */
 			if(!(a & MSG_FLAG_PROCESSED) && a < 4)
@@ -743,7 +767,12 @@ void rs_verif_hook(unsigned point, const void *p, uint64_t a, uint64_t b)
 			atomic_fetch_and_explicit(&m->verif_st, ~(uint32_t)ST_IN_HIST, memory_order_relaxed);
 			t->ft[k] = (struct ftmp){.ts = m->dest_t, .type = m->m_type, .size = m->pl_size, .plh = vh_cfg.payload_hash ? vh_cfg.payload_hash(m->pl, m->pl_size) : 0, .is_evt = 1};
 			if(m->dest_t >= t->fossil_gvt)
-				vh_violation("C04", "history-at-or-above-gvt-reclaimed", "LP %llu: event id %llu {t=%a} reclaimed at GVT %a", (unsigned long long)b, (unsigned long long)m->verif_id, m->dest_t, t->fossil_gvt);
+			{
+				unsigned long long lpid = (unsigned long long)((struct lp_ctx *)(uintptr_t)b - lps);
+				vh_violation("C04", "history-at-or-above-gvt-reclaimed", "LP %llu: event id %llu {t=%a} reclaimed at GVT %a", lpid, (unsigned long long)m->verif_id, m->dest_t, t->fossil_gvt);
+				/* the same observation refutes C13: a rollback to a point at (not below) the GVT is still legal and now impossible */
+				vh_violation("C13", "history-a-legal-rollback-can-need-reclaimed", "LP %llu: event id %llu {t=%a} and the checkpoints before it reclaimed at GVT %a: a rollback to that event (timestamp not below the GVT) is still legal", lpid, (unsigned long long)m->verif_id, m->dest_t, t->fossil_gvt);
+			}
 			return;
 		}
 		case VH_FOSSIL_END: {
@@ -905,6 +934,7 @@ unsigned vh_threads_seen(void)
 }
 uint64_t vh_lp_committed(uint64_t lp) { return lpm[lp].committed; }
 int vh_lp_owner(uint64_t lp) { return lpm[lp].owner - 1; }
+unsigned vh_lp_undone(uint64_t lp) { return lpm[lp].undone; }
 uint64_t vh_schedule_signature(void)
 {
 	uint64_t s = 0;
